@@ -320,7 +320,13 @@ class GriffeLoader:
 
         # First we expand wildcard imports and store the objects in a temporary `expanded` variable,
         # while also keeping track of the members representing wildcard import, to remove them later.
-        for member in obj.members.values():
+        # (Iterate on a copy: loading an external package below expands *its* wildcards right away,
+        # which can lead back here and expand this very object while we are looping on it.)
+        for member in list(obj.members.values()):
+            if obj.members.get(member.name) is not member:
+                # Removed or replaced by such a nested expansion: nothing left to do for it.
+                continue
+
             # Handle a wildcard.
             if member.is_alias and member.wildcard:  # type: ignore[union-attr]
                 package = member.wildcard.split(".", 1)[0]  # type: ignore[union-attr]
@@ -334,6 +340,9 @@ class GriffeLoader:
                         self.load(package, try_relative_path=False)
                     except (ImportError, LoadingError) as error:
                         logger.debug("Could not expand wildcard import %s in %s: %s", member.name, obj.path, error)
+                        continue
+                    if obj.members.get(member.name) is not member:
+                        # The package we just loaded imports from this object in turn: it was expanded in the process.
                         continue
 
                 # Try getting the module from which every public object is imported.
